@@ -18,8 +18,8 @@ import (
 	"github.com/daeuniverse/dae/common/consts"
 	"github.com/daeuniverse/dae/component/outbound"
 	"github.com/daeuniverse/dae/component/outbound/dialer"
-	fastrandx "github.com/daeuniverse/dae/verifx/c15_fastrandx"
 	"github.com/daeuniverse/dae/verifx/dialerh"
+	"github.com/daeuniverse/dae/verifx/fastrandx"
 )
 
 // indices into dialer.VerifStdTypes()
@@ -592,6 +592,10 @@ func (j *judge) judgeCache(pre, post *snap, e event) {
 				old, hadOld = j.recOf(pre, t, i)
 			}
 			switch {
+			case e.kind == evPolicy && pre != nil && pre.pol == post.pol:
+				if hadOld && got != old {
+					j.viol("cache", fmt.Sprintf("%s: recorded latency of %s changed %v -> %v by a switch to the policy already in force", typeShort[t], nodeName(i), old, got), nil)
+				}
 			case e.kind == evPolicy || pre == nil:
 				if got != want {
 					j.viol("cache", fmt.Sprintf("%s: recorded latency of %s is %v after (re)computation, its measurement+offset is %v", typeShort[t], nodeName(i), got, want), nil)
@@ -786,12 +790,15 @@ func scenarios(thorough bool) []*dialerh.Scenario {
 	for _, n := range F.latN {
 		for _, off := range []int{-1, 0} {
 			for _, tol := range tols {
-				if n == 1 && !thorough && (off != -1 || tol == 0) {
-					continue // quick: a single node has no competitor, one offset/tolerance combination suffices
+				if n == 1 && (off != -1 || tol == 0) {
+					continue // a single node has no competitor: one offset/tolerance combination suffices
 				}
 				for _, init := range allPolicies(n) {
-					if n == 2 && !thorough && init.isFixed() {
-						continue // quick: fixed is reached through the switch events
+					if n >= 2 && init.isFixed() {
+						continue // fixed is reached through the switch events
+					}
+					if n == 1 && !thorough && init != pMin && init != pRnd {
+						continue
 					}
 					sw := []pol{pMin, pRnd, fixedLast(n)}
 					if init == pMin {
@@ -819,10 +826,14 @@ func scenarios(thorough bool) []*dialerh.Scenario {
 	// family fam: other-IP-family fallback (all six domains can be killed; revival by probe on the v6 side)
 	for _, n := range F.famN {
 		for _, init := range []pol{pMin, pRnd} {
+			d := F.famDepth[n]
+			if init == pRnd && n >= 2 {
+				d-- // every RNG outcome is executed per selection: one level less for the same cost
+			}
 			add("fam", n, -1, 0, init, []dom{
 				{DAT4, nil, kill}, {DNS4, nil, kill}, {TCP4, nil, kill},
 				{DAT6, nil, []evKind{evFFail, evTOK}}, {DNS6, ms(40), kill}, {TCP6, ms(40), kill},
-			}, nil, F.famDepth[n])
+			}, nil, d)
 		}
 	}
 	// family tcp46: tcp4/tcp6 with latencies on both sides (strict vs non-strict)
@@ -831,12 +842,19 @@ func scenarios(thorough bool) []*dialerh.Scenario {
 			add("tcp46", n, 0, 50*time.Millisecond, init, []dom{{TCP4, ms(40, 100), kill}, {TCP6, ms(10, 160), kill}}, []pol{pRnd, pMin}, F.tcp46Depth[n])
 		}
 	}
+	// family swap: ONE domain, only death (forced) and revival (probe ok 40ms) per node: every order of removals and
+	// re-insertions of the dense array / index map up to the bound
+	for _, n := range F.swapN {
+		for _, init := range []pol{pMin, pRnd} {
+			add("swap", n, -1, 50*time.Millisecond, init, []dom{{TCP4, ms(40), kill}}, nil, F.swapDepth[n])
+		}
+	}
 	return out
 }
 
 type sizes struct {
-	latN, chainN, famN, tcp46N                    []int
-	latDepth, chainDepth, famDepth, tcp46Depth map[int]int
+	latN, chainN, famN, tcp46N, swapN                     []int
+	latDepth, chainDepth, famDepth, tcp46Depth, swapDepth map[int]int
 }
 
 func famSizes(thorough bool) sizes {
@@ -846,13 +864,15 @@ func famSizes(thorough bool) sizes {
 			chainN: []int{1, 2}, chainDepth: map[int]int{1: 3, 2: 3},
 			famN: []int{1, 2}, famDepth: map[int]int{1: 4, 2: 4},
 			tcp46N: []int{2}, tcp46Depth: map[int]int{2: 3},
+			swapN: []int{2}, swapDepth: map[int]int{2: 4},
 		}
 	}
 	return sizes{
-		latN: []int{1, 2, 3}, latDepth: map[int]int{1: 6, 2: 4, 3: 3},
-		chainN: []int{2, 3}, chainDepth: map[int]int{2: 4, 3: 4},
-		famN: []int{2, 3}, famDepth: map[int]int{2: 6, 3: 6},
+		latN: []int{1, 2, 3}, latDepth: map[int]int{1: 5, 2: 4, 3: 3},
+		chainN: []int{2, 3}, chainDepth: map[int]int{2: 4, 3: 3},
+		famN: []int{2, 3}, famDepth: map[int]int{2: 5, 3: 4},
 		tcp46N: []int{2, 3}, tcp46Depth: map[int]int{2: 4, 3: 4},
+		swapN: []int{3}, swapDepth: map[int]int{3: 6},
 	}
 }
 
@@ -861,7 +881,7 @@ func main() {
 		ID: "C15",
 		Rule: "states = distinct FULL dumps (every collection of every node: alive flag, counters, latency window, moving average; recovery back-off levels and pending timers as deadline-minus-now; every AliveDialerSet: aliveEntries order with cached latencies, dialerToIndex, dialerToLatency, cached best; current policy; process-wide failure tracker) reached by BFS over event histories on the real DialerGroup, one history = fresh objects + replay inside ONE vsched.Run on the virtual clock (a scripted probe takes its latency as virtual time inside the real Dialer.check()); transitions = (state,event) executions; in EVERY state all selections SelectWithExclusionResult(type in tcp4,data-udp4,data-udp6,dns-udp4; strict in t,f; excluded in none,each node) are evaluated — under the random policy once per vector of fastrand.Intn answers (exhaustive odometer) — and judged against the reference from the statement, consecutive states by the tolerance rule; alphabet per scenario family: lat (one domain, probe ok 10/40/100/160ms, probe/traffic/forced fail, traffic ok, policy switches), chain (data-UDP -> DNS-UDP -> TCP), fam (other IP family), tcp46; groups of 1..3 nodes, offset none / +30ms on node a, tolerance 0 / 50ms, every policy as the initial one; distinct_nontrivial = distinct (policy, tolerance, alive matrix, all selection outcomes) observations summed over scenarios",
 		Scenarios:   scenarios,
-		BudgetQuick: 100 * time.Second, BudgetThorough: 17 * time.Minute,
+		BudgetQuick: 45 * time.Second, BudgetThorough: 17 * time.Minute,
 		Assumptions: []string{
 			"'recorded alive' is the node's own flag Dialer.MustGetAlive(type); the agreement of every AliveDialerSet with it is checked in every state as a structural invariant",
 			"a node's latency measurement is read from the node (last sample / mean of the window / moving average as the policy names it) plus its configured offset plus the documented recovery back-off penalty in force when the group recorded it; the group's cached value must equal that after every new sample and after every policy switch and must not be touched by events on other nodes",
